@@ -2,7 +2,7 @@
 """Print the DESIGN §9 table from seeded/*/meta.json (one row per seeded change)."""
 import json, glob, os, re
 rows = []
-for d in sorted(glob.glob("/verif/seeded/*")):
+for d in sorted(glob.glob("/verif/seeded/C*")):
     name = os.path.basename(d)
     m = json.load(open(os.path.join(d, "meta.json")))
     title = " ".join(l.strip("# ").strip() for l in m.get("breaks", [])[:1])
@@ -28,5 +28,5 @@ print("| change | what was changed | what it needs to manifest | result of `bin/
 print("|---|---|---|---|")
 print("\n".join(rows))
 import collections
-c = collections.Counter((json.load(open(os.path.join(d, "meta.json"))).get("check_outcome") or {}).get("outcome", "not run") for d in glob.glob("/verif/seeded/*"))
+c = collections.Counter((json.load(open(os.path.join(d, "meta.json"))).get("check_outcome") or {}).get("outcome", "not run") for d in glob.glob("/verif/seeded/C*"))
 print("\nTotals:", dict(c))
